@@ -228,6 +228,11 @@ class PathResult:
         return f"<path {self.kind} {self.value!r} |pc|={len(self.pc)}>"
 
 
+# measured on every run: which functions / statements of the source under verification were executed symbolically (evidence: functions_executed)
+EXECUTED_FUNCS = set()
+EXECUTED_LINES = set()
+
+
 class Interp:
     def __init__(self, loader):
         self.loader = loader
@@ -1304,6 +1309,8 @@ class Interp:
 
     def run_function(self, f, args, kwargs):
         self.stack.append(f.qualname)
+        if f.mod is not None and f.mod.file:
+            EXECUTED_FUNCS.add((f.mod.name, f.qualname))
         try:
             return self._run_function(f, args, kwargs)
         finally:
@@ -1399,6 +1406,8 @@ class Interp:
 
     def stmt(self, s, env, mod):
         T = type(s)
+        if mod is not None and mod.file:
+            EXECUTED_LINES.add((mod.name, s.lineno))
         if T is ast.Expr:
             self.eval(s.value, env, mod)
         elif T is ast.Return:
